@@ -356,12 +356,62 @@ _docstring = Contract(
              'implies(isinstance(self._name, ImportName) and fast, result == "")'],
 )
 
-CONTRACTS = CALC + CALC_THOROUGH + KINDS + RENDER + [_docstring]
+def _replay_clean_doc(inp):
+    """a real definition whose docstring keeps whitespace after inspect.cleandoc"""
+    from pyvc.replay import run_real
+    import inspect
+    import parso
+    from jedi.parser_utils import clean_scope_docstring
+    src = inp['source']
+    module = parso.parse(src)
+    scope = next(module.iter_funcdefs(), None) or next(module.iter_classdefs(), None) or module
+    out = run_real(lambda: clean_scope_docstring(scope))
+    ns = {}
+    exec(compile(src, '<replay>', 'exec'), ns)
+    obj = ns.get(inp.get('name', 'f'))
+    return {'interpreter_doc': inspect.getdoc(obj) if obj is not None else None}, out
+
+
+_clean_doc = Contract(
+    id='C11.clean_scope_docstring', prop='C11',
+    clause='the raw docstring of a definition is exactly inspect.cleandoc of the evaluated string literal (what '
+           'inspect.getdoc returns): nothing stripped beyond that; empty when there is no docstring node',
+    file='jedi/parser_utils.py', qualname='clean_scope_docstring',
+    params={'scope_node': Obj('PNode')}, families=['PNode'], ret=STR,
+    ensures=['implies(scope_node.get_doc_node() is not None, '
+             'result == cleandoc(safe_literal_eval(scope_node.get_doc_node().value)))',
+             'implies(scope_node.get_doc_node() is None, result == "")'],
+    witness={}, replay=_replay_clean_doc, concrete_only=True,
+    concrete_ensures=['result == interpreter_doc'],
+    witness_library=[{'source': 'def f(a):\n    """Frobnicate a.  """\n', 'name': 'f'},
+                     {'source': "def f(n):\n    '''Make n boxes.\n   '''\n", 'name': 'f'},
+                     {'source': 'def f(a):\n    """\n    First.\n\n      indented\t\n    """\n', 'name': 'f'}],
+)
+
+_stmt_doc = Contract(
+    id='C11.find_statement_documentation', prop='C11',
+    clause='the documentation of an assignment is inspect.cleandoc of the string literal that follows it, else empty',
+    file='jedi/parser_utils.py', qualname='find_statement_documentation',
+    params={'tree_node': Obj('PNode')}, families=['PNode'], ret=STR,
+    requires=['implies(tree_node.type == "expr_stmt", tree_node.parent is not None)',
+              'forall(lambda n=T_OBJ("PNode"): implies(n.type == "simple_stmt", not n.is_leaf and len(n.children) >= 1))',
+              'forall(lambda n=T_OBJ("PNode"): implies(n.type == "string", n.is_leaf))'],
+    ensures=['implies(tree_node.type != "expr_stmt", result == "")',
+             'implies(tree_node.type == "expr_stmt" and tree_node.parent.get_next_sibling() is not None '
+             'and tree_node.parent.get_next_sibling().type == "simple_stmt" '
+             'and tree_node.parent.get_next_sibling().children[0].type == "string", '
+             'result == cleandoc(safe_literal_eval(tree_node.parent.get_next_sibling().children[0].value)))'],
+)
+
+CONTRACTS = CALC + CALC_THOROUGH + KINDS + RENDER + [_docstring, _clean_doc, _stmt_doc]
 
 
 def register(reg):
     from pyvc.values import MCls
     reg.names['ImportName'] = MCls('ImportName')
+    reg.names['cleandoc'] = FnSpec('inspect.cleandoc', params=[('doc', STR)], ret=STR, pure=True, assumed=True)
+    reg.names['safe_literal_eval'] = FnSpec('safe_literal_eval', params=[('value', STR)], ret=STR, pure=True,
+                                            assumed=True, note='ast.literal_eval of the literal; "" for f-strings')
     reg.families['CallDetails'].methods['_list_arguments'] = FnSpec('CallDetails._list_arguments',
                                                                    impl=_list_arguments_impl, assumed=False)
 
